@@ -85,7 +85,7 @@ def Pred.toJson : Pred → Json
   | .vtrue | .vfalse => .obj [("metadata", emptyMeta)]
 
 def Event.toJson : Event → Json
-  | .simple n a p => .obj [("metadata", emptyMeta), ("name", .str n), ("predicate", p.toJson), ("event_type", .int 1),
+  | .simple n a p => .obj [("metadata", emptyMeta), ("name", .str n), ("predicate", p.toJson), ("event_type", .int ((Gen.eventTypeValues.lookup "PUBLISH").getD 0 : Nat)),
       ("alias", Json.ofOptStr a), ("message_type", .null)]
   | .disj a b => .obj [("metadata", emptyMeta), ("event1", a.toJson), ("event2", b.toJson)]
 
@@ -93,10 +93,9 @@ def optEventJson : Option Event → Json
   | some e => e.toJson
   | none => .null
 
-def scopeTypeValue : ScopeKind → Int
-  | .global => 1 | .afterUntil => 2 | .after => 3 | .until_ => 4
-def patternTypeValue : PatternKind → Int
-  | .absence => 1 | .existence => 2 | .requirement => 3 | .response => 4 | .prevention => 5
+/-- the value the enum member carries now (regenerated table G8; the numbering is an implementation detail of the enum) -/
+def scopeTypeValue (k : ScopeKind) : Int := ((Gen.scopeTypeValues.lookup k.pyName).getD 0 : Nat)
+def patternTypeValue (k : PatternKind) : Int := ((Gen.patternTypeValues.lookup k.pyName).getD 0 : Nat)
 
 def Scope.toJson (s : Scope) : Json :=
   .obj [("metadata", emptyMeta), ("scope_type", .int (scopeTypeValue s.kind)), ("activator", optEventJson s.activator),
